@@ -530,6 +530,57 @@ func c13BigCases(depth, nm int) []c13BigCase {
 	return out
 }
 
+type c13ForkCase struct {
+	Fork bool `json:"fork"`
+}
+
+// c13ForkRun: a Bus copied by value (a machine forked by copying its struct) is a bus of its own: an Attach on
+// either of the two does not re-route the other.
+func c13ForkRun() (sig, what string) {
+	w := c13New(3)
+	if err := w.b.Attach(w.mems[0], "a", 0x008000, 0x00801F); err != nil {
+		return "unexplained:attach-result", err.Error()
+	}
+	fork := *w.b
+	if err := fork.Attach(w.mems[1], "b", 0x008010, 0x00802F); err != nil {
+		return "unexplained:attach-result", err.Error()
+	}
+	if err := w.b.Attach(w.mems[2], "c", 0x008040, 0x00804F); err != nil {
+		return "unexplained:attach-result", err.Error()
+	}
+	type exp struct {
+		a           uint32
+		base, forkd int // owner seen through the original / through the copy (0 = never attached)
+	}
+	for _, e := range []exp{{0x008000, 1, 1}, {0x008010, 1, 2}, {0x00801F, 1, 2}, {0x008020, 0, 2}, {0x00802F, 0, 2}, {0x008030, 0, 0}, {0x008040, 3, 0}, {0x00804F, 3, 0}} {
+		for k, b := range []*bus.Bus{w.b, &fork} {
+			want := e.base
+			name := "the original bus"
+			if k == 1 {
+				want, name = e.forkd, "the copied bus"
+			}
+			w.log = w.log[:0]
+			var v byte
+			panicked := func() (p bool) {
+				defer func() {
+					if recover() != nil {
+						p = true
+					}
+				}()
+				v = b.EaRead(e.a)
+				return false
+			}()
+			switch {
+			case want == 0 && !panicked:
+				return "unexplained:copied-bus-shares-routing", fmt.Sprintf("%s: $%06x was never attached on it, yet the read returned $%02x (memories saw %v): an Attach on the other bus re-routed this one", name, e.a, v, w.log)
+			case want != 0 && (panicked || len(w.log) != 1 || w.log[0].Mem != want):
+				return "unexplained:copied-bus-shares-routing", fmt.Sprintf("%s: the read of $%06x should reach memory %d; panicked=%v, memories saw %v", name, e.a, want, panicked, w.log)
+			}
+		}
+	}
+	return "", ""
+}
+
 type c13ManyCase struct {
 	ManyAttaches int `json:"many_attaches"`
 }
@@ -562,6 +613,14 @@ func c13ManyRun(n int) (sig, what string) {
 }
 
 func replayC13(raw json.RawMessage) (string, error) {
+	var fk c13ForkCase
+	if json.Unmarshal(raw, &fk) == nil && fk.Fork {
+		sig, what := c13ForkRun()
+		if sig == "" {
+			return "a bus copied by value routes on its own", nil
+		}
+		return what, fmt.Errorf("%s", sig)
+	}
 	var many c13ManyCase
 	if json.Unmarshal(raw, &many) == nil && many.ManyAttaches > 0 {
 		sig, what := c13ManyRun(many.ManyAttaches)
@@ -747,6 +806,10 @@ func runC13(r *report.Run) {
 	transitions += nbig
 	// a bus that has been through very many Attach calls (more than 2^16): routing is still that of the last
 	// Attach over each address
+	transitions += 3
+	if sig, what := c13ForkRun(); sig != "" {
+		r.Violation(sig, what, c13ForkCase{true})
+	}
 	transitions += 70000
 	if sig, what := c13ManyRun(70000); sig != "" {
 		r.Violation(sig, what, c13ManyCase{ManyAttaches: 70000})
@@ -775,7 +838,7 @@ func runC13(r *report.Run) {
 	r.Set("traces_validated_against_impl", transitions)
 	r.Set("evaluations", evals)
 	r.Set("distinct_nontrivial", states)
-	r.Set("rule", "BFS to fixpoint over routing states (owner of each 16-byte window segment) for each window position; every transition is a real Attach on a fresh real Bus reached by replaying the shortest path; in every state every byte address of window+guards is read and written (the instrumented memories make a bus read of their own at another attached address while serving each access), EaRead24_wrap is called from every window address (and across the bank wrap in the large-range scenarios) and EaDump is called for every start<=end; evaluations counts those per-state calls. One bus is put through 70000 Attach calls and must still route to the last memory attached over each cell. The library's own memory.RAM and memory.ROM objects (which subtract their offset from the full address) are attached side by side and overlapping at seven bases (each object once across a bank edge) and every address is read, written and dumped against a plain owner map. The second bus implementation, cpualt.Bus, has no Attach result, alignment rule or EaDump and treats unattached cells as open bus, so only the routing clause applies to it: BFS to a fixpoint over (reader owner, writer owner) per window cell through real AttachReader/AttachWriter calls, every address probed through Read8/16/24, Write8/16/24, EaRead, EaWrite with logging closures (each byte must reach the most recently attached closure of its own cell with the full address)")
+	r.Set("rule", "BFS to fixpoint over routing states (owner of each 16-byte window segment) for each window position; every transition is a real Attach on a fresh real Bus reached by replaying the shortest path; in every state every byte address of window+guards is read and written (the instrumented memories make a bus read of their own at another attached address while serving each access), EaRead24_wrap is called from every window address (and across the bank wrap in the large-range scenarios) and EaDump is called for every start<=end; evaluations counts those per-state calls. A bus copied by value must route on its own (Attach on either does not re-route the other). One bus is put through 70000 Attach calls and must still route to the last memory attached over each cell. The library's own memory.RAM and memory.ROM objects (which subtract their offset from the full address) are attached side by side and overlapping at seven bases (each object once across a bank edge) and every address is read, written and dumped against a plain owner map. The second bus implementation, cpualt.Bus, has no Attach result, alignment rule or EaDump and treats unattached cells as open bus, so only the routing clause applies to it: BFS to a fixpoint over (reader owner, writer owner) per window cell through real AttachReader/AttachWriter calls, every address probed through Read8/16/24, Write8/16/24, EaRead, EaWrite with logging closures (each byte must reach the most recently attached closure of its own cell with the full address)")
 	r.Set("bounds", map[string]interface{}{"window_segments": segs, "memories": nm, "window_bases": bases, "fixpoint": true})
 	r.Set("exhaustive", true)
 	r.Sample(c13Case{Base: 0x10, Segs: segs, Mems: nm, Path: []c13Attach{{1, 0x10, 0x4F}, {2, 0x20, 0x2F}}, Probe: "dump 000018 00002f"})
